@@ -76,6 +76,96 @@ class ProgGen:
 		self.shadow_calls = [f'{outer}().{m2}()', f'{outer}.{inner}().{m1}()']
 		return out
 
+	def generic_block(self, base: str) -> tuple[list[str], list[str]]:
+		"""Generic functions and a generic (linked) class whose type variable occurs NESTED in an optional parameter
+		(`list[T] | None`, `dict[str, T] | None`, `'N[T] | None'`) next to a parameter that pins it (`d: T`), in either order, called
+		with None and with a value for the optional one: T has to come from the pinning parameter wherever it stands.
+		Returns (definitions, body lines of the entry function).
+		A parameter that IS `T | None` and precedes the pinning one, given None, binds T to None (known finding
+		optional-template-none-argument, proposed/C03-template-path-position.md): generated at a low rate, its result unused."""
+		rng = self.rng
+		out: list[str] = []
+		body: list[str] = []
+
+		def decl(expr: str) -> str:
+			v = self.fresh('v')
+			body.append(f'\t{v} = {expr}')
+			return v
+
+		elems = {'int': ('a', '3', '[a, 2]', '{"k": a}'), 'str': ('s', '"q"', '[s]', '{"k": s}'), 'float': ('b', '1.5', '[b, 0.5]', '{"k": b}'),
+			base: (f'{base}(a)', f'{base}(1)', f'[{base}(2)]', f'{{"k": {base}(3)}}'), 'list[int]': ('[a]', '[1, 2]', '[[a]]', '{"k": [a]}')}
+
+		def params(opt: str, opt_first: bool) -> tuple[str, int]:
+			return (f'{opt}, d: T', 0) if opt_first else (f'd: T, {opt}', 1)
+
+		def args(o: str, d: str, opt_first: bool) -> str:
+			return f'{o}, {d}' if opt_first else f'{d}, {o}'
+
+		# the linked class
+		if rng.random() < 0.7:
+			cls = self.fresh('N')
+			first = rng.random() < 0.6
+			ps, _ = params(f"nxt: '{cls}[T] | None'", first)
+			out += ['', '', f'class {cls}(Generic[T]):', f"\tnxt: '{cls}[T] | None'", '\tv: T', '', f'\tdef __init__(self, {ps}) -> None:',
+				'\t\tself.nxt = nxt', '\t\tself.v = d', '', '\tdef get(self) -> T:', '\t\treturn self.v', '', '\tdef both(self) -> list[T]:', '\t\treturn [self.v, self.v]']
+			for ty in rng.sample(list(elems), 2):
+				e1, e2 = elems[ty][0], elems[ty][1]
+				n1 = decl(f'{cls}({args("None", e1, first)})')
+				n2 = decl(f'{cls}({args(n1, e2, first)})')
+				x1 = decl(f'{n1}.v')
+				decl(f'{n2}.get()')
+				decl(f'{rng.choice([n1, n2])}.both()')
+				decl(f'[{x1}, {n2}.v]')
+				decl(f'{cls}({args("None", e2, first)}).v')
+				if ty == base:
+					decl(f'{n2}.v.{self.base_attr}')
+					decl(f'{cls}({args("None", e1, first)}).get().{self.base_attr}')
+				self.count(f"generic-link:{ty}:{'opt-first' if first else 'pin-first'}")
+		# generic functions: (annotation of the optional parameter, value for it given an element, returned expression, T at a non-first
+		# argument position of the parameter's type)
+		hashable = {'int', 'str', 'float'}
+		forms = [('list[T] | None', '[{e}]', 'xs[0] if xs else d', False), ('list[list[T]] | None', '[[{e}], []]', 'xs[0][0] if xs else d', False),
+			('dict[T, int] | None', '{{{e}: 1}}', 'd', False), ('tuple[T, int] | None', '({e}, 1)', 'xs[0] if xs else d', False),
+			('dict[str, T] | None', '{{"k": {e}}}', 'xs["k"] if xs is not None and "k" in xs else d', True),
+			('tuple[int, T] | None', '(1, {e})', 'xs[1] if xs else d', True)]
+		for ann, mk, ret, nonfirst in rng.sample(forms, rng.randint(1, 2)):
+			fn = self.fresh('pick')
+			first = rng.random() < 0.6
+			ps, _ = params(f'xs: {ann}', first)
+			rt, wrap = ('T', '{}') if rng.random() < 0.7 else ('list[T]', '[{}]')
+			out += ['', '', f'def {fn}({ps}) -> {rt}:', f"\treturn {wrap.format(ret)}"]
+			for ty in rng.sample([t for t in elems if t in hashable or not ann.startswith('dict[T')], 2):
+				e1, e2 = elems[ty][0], elems[ty][1]
+				r1 = decl(f'{fn}({args("None", e1, first)})')
+				if ty == base:
+					decl(f'{r1}.{self.base_attr}' if rt == 'T' else f'{r1}[0].{self.base_attr}')
+				elif rt == 'T' and ty in ('int', 'float'):
+					decl(f'{r1} + 1')
+				if not (nonfirst and first):
+					decl(f'{fn}({args(mk.format(e=e2), e1, first)})')
+				elif rng.random() < 0.2:
+					# known finding template-nonfirst-type-argument: T at a non-first argument position of the parameter's type is
+					# bound to the FIRST argument of the value's type (proposed/C03-template-path-position.md); unused result
+					decl(f'{fn}({args(mk.format(e=e2), e1, first)})')
+					self.count('template-nonfirst-type-argument')
+				self.count(f"generic-func:{ann}:{'opt-first' if first else 'pin-first'}")
+		# a parameter that is `T | None` itself
+		if rng.random() < 0.5:
+			fn = self.fresh('wrap')
+			first = rng.random() < 0.5
+			ps, _ = params('o: T | None', first)
+			out += ['', '', f'def {fn}({ps}) -> list[T]:', '\treturn [d] if o is None else [o, d]']
+			ty = rng.choice(['int', 'str', 'float'])
+			e1, e2 = elems[ty][0], elems[ty][1]
+			decl(f'{fn}({args(e2, e1, first)})')
+			if not first:
+				decl(f'{fn}({args("None", e1, first)})')
+			elif rng.random() < 0.25:
+				decl(f'{fn}({args("None", e1, first)})')   # known finding: the result is not used again
+				self.count('optional-template-none-argument')
+			self.count('generic-func:T | None')
+		return out, body
+
 	def generate(self) -> tuple[str, dict[str, int]]:
 		rng = self.rng
 		out: list[str] = []
@@ -118,6 +208,7 @@ class ProgGen:
 			}[k]
 			attrs.append((a, k, init))
 			self.count(f'attr:{k}')
+		self.base_attr = attrs[0][0]
 		out += ['', '', f'class {base}:'] + [f'\t{a}: {k}' for a, k, _ in attrs]
 		out += ['', '\tdef __init__(self, n: int) -> None:'] + [f'\t\tself.{a} = {init}' for a, _, init in attrs]
 		getters: list[tuple[str, str]] = []
@@ -135,12 +226,15 @@ class ProgGen:
 				f'\tdef {meth}(self, k: int) -> int:', f'\t\treturn k * {rng.randint(2, 5)}']
 			self.count('inherit')
 		gen_cls = None
+		generic_body: list[str] = []
 		if use_generic:
 			gen_cls = self.fresh('G')
 			out += ['', '', f'class {gen_cls}(Generic[T]):', '\tdata: list[T]', '', '\tdef __init__(self) -> None:', '\t\tself.data = []', '',
 				'\tdef push(self, v: T) -> None:', '\t\tself.data.append(v)', '', '\tdef top(self) -> T:', '\t\treturn self.data[0]', '',
 				'\tdef all(self) -> list[T]:', '\t\treturn self.data']
 			self.count('generic')
+			gdefs, generic_body = self.generic_block(base)
+			out += gdefs
 		it_cls = itb_cls = None
 		it_ty = rng.choice(['int', 'str', 'float'])
 		if use_iter:
@@ -201,6 +295,7 @@ class ProgGen:
 			if k.startswith('tuple[') and rng.random() < 0.7:
 				decl(f'{o1}.{a}[0]')
 				decl(f'{o1}.{a}[1]')
+				decl(f"{o1}.{a}[{rng.choice(['', '0', '1', '2'])}:{rng.choice(['', '', '1', '2', '3'])}]")
 		for m, k in getters:
 			if rng.random() < 0.8:
 				decl(f'{rng.choice(objs)}.{m}()')
@@ -227,6 +322,7 @@ class ProgGen:
 			decl(f'{g}.all()')
 			decl(f'{g}.data')
 			decl(f'[w for w in {g}.all()]')
+			body += generic_body
 		for c in self.shadow_calls:
 			decl(c)
 		if it_cls and itb_cls:
